@@ -736,7 +736,42 @@ fn bump_family(out: &mut Out) {
 
 fn tier_family(out: &mut Out) {
     use zerv::schema::ZervSchemaPreset as P;
-    use zerv::version::zerv::{PreReleaseVar, ZervVars};
+    use zerv::version::zerv::components::{Component as C, Var};
+    use zerv::version::zerv::{PreReleaseVar, Zerv, ZervVars};
+    // content of the sixteen fixed presets (documented lists: standard = major.minor.patch, calver = YYYY.MM.DD.patch; tiers add
+    // epoch / pre-release / post / dev to extra-core; -context adds branch, distance, short hash to build) — also exercises the
+    // `.unwrap()` in every constructor
+    let std_core = vec![C::Var(Var::Major), C::Var(Var::Minor), C::Var(Var::Patch)];
+    let cal_core = vec![C::Var(Var::Timestamp("YYYY".into())), C::Var(Var::Timestamp("MM".into())), C::Var(Var::Timestamp("DD".into())), C::Var(Var::Patch)];
+    let tiers = [vec![C::Var(Var::Epoch)], vec![C::Var(Var::Epoch), C::Var(Var::PreRelease)], vec![C::Var(Var::Epoch), C::Var(Var::PreRelease), C::Var(Var::Post)],
+                 vec![C::Var(Var::Epoch), C::Var(Var::PreRelease), C::Var(Var::Post), C::Var(Var::Dev)]];
+    let ctx = vec![C::Var(Var::BumpedBranch), C::Var(Var::Distance), C::Var(Var::BumpedCommitHashShort)];
+    let fixed = [
+        (P::StandardBase, 0, false, false), (P::StandardBasePrerelease, 1, false, false), (P::StandardBasePrereleasePost, 2, false, false), (P::StandardBasePrereleasePostDev, 3, false, false),
+        (P::StandardBaseContext, 0, true, false), (P::StandardBasePrereleaseContext, 1, true, false), (P::StandardBasePrereleasePostContext, 2, true, false), (P::StandardBasePrereleasePostDevContext, 3, true, false),
+        (P::CalverBase, 0, false, true), (P::CalverBasePrerelease, 1, false, true), (P::CalverBasePrereleasePost, 2, false, true), (P::CalverBasePrereleasePostDev, 3, false, true),
+        (P::CalverBaseContext, 0, true, true), (P::CalverBasePrereleaseContext, 1, true, true), (P::CalverBasePrereleasePostContext, 2, true, true), (P::CalverBasePrereleasePostDevContext, 3, true, true),
+    ];
+    for (p, tier, with_ctx, calver) in fixed {
+        out.cases += 1;
+        let s = p.schema();
+        let want_core = if calver { &cal_core } else { &std_core };
+        let want_build: Vec<C> = if with_ctx { ctx.clone() } else { vec![] };
+        if s.core() != want_core || s.extra_core() != &tiers[tier] || s.build() != &want_build {
+            out.cex("presets_tier", format!("{p:?}.schema() = core {:?} extra_core {:?} build {:?}; documented: core {want_core:?} extra_core {:?} build {want_build:?}", s.core(), s.extra_core(), s.build(), tiers[tier]));
+        }
+        if calver {
+            // "CalVer presets therefore print the UTC year, month and day of the commit (or, failing that, tag) time"
+            for (bumped, last, ymd) in [(Some(1710511845u64), Some(86400u64), "2024.3.15"), (None, Some(1577836799), "2019.12.31"), (Some(951782400), None, "2000.2.29")] {
+                out.cases += 1;
+                let vars = ZervVars { patch: Some(4), bumped_timestamp: bumped, last_timestamp: last, ..Default::default() };
+                let rendered = SemVer::from(Zerv { schema: s.clone(), vars }).to_string();
+                if !(rendered == format!("{ymd}-4") || rendered.starts_with(&format!("{ymd}-4+")) || rendered.starts_with(&format!("{ymd}-4."))) {
+                    out.cex("presets_tier", format!("{p:?} with commit time {bumped:?} / tag time {last:?} and patch 4 renders {rendered:?}; UTC date is {ymd}"));
+                }
+            }
+        }
+    }
     for dirty in [None, Some(false), Some(true)] {
         for distance in [None, Some(0u64), Some(3)] {
             for pre in [None, Some(PreReleaseVar { label: PreReleaseLabel::Alpha, number: Some(1) })] {
@@ -1209,6 +1244,18 @@ fn placement_family(out: &mut Out, semver: bool) {
                         s
                     };
                     let got = if semver { SemVer::from(zerv).to_string() } else { PEP440::from(zerv).to_string() };
+                    // C01: "zerv's own check/parser accepts the string" and it is already in its printed (normal) form
+                    if semver {
+                        match SemVer::from_str(&got) {
+                            Err(e) => out.cex(fam, format!("class=own-output-rejected core={core:?} extra_core={extra:?} build={build:?} branch={:?}: rendered {got:?} is rejected by zerv's own SemVer parser: {e}", vars.bumped_branch)),
+                            Ok(p) => if p.to_string() != got { out.cex(fam, format!("class=own-output-not-fixed-point rendered {got:?} parses and prints as {:?}", p.to_string())); },
+                        }
+                    } else {
+                        match PEP440::from_str(&got) {
+                            Err(e) => out.cex(fam, format!("class=own-output-rejected core={core:?} extra_core={extra:?} build={build:?} branch={:?}: rendered {got:?} is rejected by zerv's own PEP 440 parser: {e}", vars.bumped_branch)),
+                            Ok(p) => if p.to_string() != got { out.cex(fam, format!("class=own-output-not-fixed-point rendered {got:?} parses and prints as {:?} (not in normal form)", p.to_string())); },
+                        }
+                    }
                     if got != expected {
                         out.cex(fam, format!("core={core:?} extra_core={extra:?} build={build:?} vars={{major:{:?},minor:{:?},patch:{:?},epoch:{:?},pre_release:{:?},post:{:?},dev:{:?},distance:{:?},dirty:{:?},bumped_branch:{:?}}}: rendered {got:?}, the placement rule gives {expected:?}",
                             vars.major, vars.minor, vars.patch, vars.epoch, vars.pre_release, vars.post, vars.dev, vars.distance, vars.dirty, vars.bumped_branch));
